@@ -20,7 +20,7 @@ META = {
              "non-trivial = scenario in which the watchdog had to act (TestRequest sent)"),
     "assumptions": ["'about one interval' = TestRequest within [h-1, h+1] s after the last inbound frame; 'about three intervals' = disconnected by 3h+2",
                     "'never disconnected' is restated as: not within 12 intervals (bounded horizon)",
-                    "answers delayed between 2h-2.1 and 2h+2 s, periodic traffic slower than h-1.1 without answers, and sessions that are not ACTIVE are unspecified"],
+                    "answers delayed between 2h-2.1 and 2h+2 s, periodic traffic slower than h-1.1 without answers, and sessions that are not ACTIVE are unspecified, except that an inbound TestRequest, the echo of an outstanding TestReqID and a wrong TestReqID are also judged when they arrive numbered ahead of an open gap"],
 }
 REQUIRED_ORACLES = ["silent:testrequest-time", "silent:disconnect-time", "live:survives", "echo:testreqid", "one-outstanding", "wrong-id:logout"]
 NSHARDS = 16
@@ -50,6 +50,11 @@ def scenarios(tier):
                 out.append((h, role, ph, "answer-twice", 0))
                 out.append((h, role, ph, "app-test-req", 0))
                 out.append((h, role, ph, "inbound-testreq", 0))
+                if ph in (0.0, 0.5):
+                    # the same obligations while a sequence gap is open (the peer's frames arrive numbered ahead)
+                    out.append((h, role, ph, "gap:testreq-ahead", 0))
+                    out.append((h, role, ph, "gap:answer-ahead", 0))
+                    out.append((h, role, ph, "gap:wrong-id-ahead", 0))
     return out
 
 
@@ -304,6 +309,61 @@ async def scenario(acc, clock, sc, cid, rnd=None):
             check_outstanding(s)
             acc.addmap("app_test_req_results", "ok", res.count("ok"))
             acc.addmap("app_test_req_results", "refused", res.count("refused"))
+            return True
+        if kind == "gap:testreq-ahead":
+            await asyncio.sleep(0.2)
+            s.peer.next_out += 2                      # two of the peer's frames were lost: everything now arrives numbered ahead
+            s.feed("D", [(11, "late")])
+            await settle()
+            tap0 = len(s.ep.vf_tap)
+            s.feed("1", [(112, "GAPTR")])
+            await settle()
+            acc.oracle("echo:testreqid")
+            new = [fixwire.parse(b) for b in s.ep.vf_tap.frames(tap0)]
+            hb_ = [f for f in new if fixwire.get(f, 35) == "0"]
+            if not hb_:
+                s.V("echo:no-reply:while-gap-open", "an inbound TestRequest that arrived while a sequence gap was open was not answered")
+            elif fixwire.get(hb_[0], 112) != "GAPTR":
+                s.V("echo:testreqid-differs", f"answered with {fixwire.get(hb_[0], 112)!r}")
+            return True
+        if kind in ("gap:answer-ahead", "gap:wrong-id-ahead"):
+            state = {"n": 0}
+
+            def ans(tid):
+                state["n"] += 1
+                first = state["n"] == 1
+
+                def go():
+                    if s.disconnected():
+                        return
+                    if first:
+                        e0 = s.peer.next_out
+                        s.peer.next_out += 2              # the answer is numbered ahead: two frames before it were lost
+                        s.feed("0", [(112, tid if kind == "gap:answer-ahead" else "424242")])
+                        if kind == "gap:answer-ahead":
+                            # the peer then closes the gap the connection asks about
+                            nxt = s.peer.next_out
+                            s.later(0.2, lambda: (not s.disconnected()) and s.ep.vf_reader.feed(s.peer.frame("4", e0, [(123, "Y"), (36, nxt)], possdup=True)))
+                    else:
+                        s.feed("0", [(112, tid)])
+                s.later(0.1, go)
+            s.answer = ans
+            if kind == "gap:answer-ahead":
+                await run_until(s, 12 * h)
+                acc.oracle("live:survives")
+                if s.disconnected():
+                    s.V("live:disconnected-despite-answers:answer-numbered-ahead", f"the first TestRequest was answered with the right TestReqID in a frame numbered ahead (gap open), "
+                        f"the gap was then filled and every later TestRequest answered; the peer was disconnected (h={h})")
+                check_outstanding(s)
+            else:
+                await run_until(s, h + 3)
+                acc.oracle("wrong-id:logout")
+                frames = s.ep.vf_tap.items
+                kinds_ = [fixwire.get(fixwire.parse(b), 35) for _, b in frames]
+                if not s.sent_tr:
+                    s.V("silent:no-testrequest", "no TestRequest within h+3 s")
+                elif not s.disconnected() or "5" not in kinds_:
+                    s.V("wrong-id:no-logout:while-gap-open", f"a Heartbeat echoing a wrong TestReqID, numbered ahead, did not end the session with a Logout (state {s.ep.connection_state.name})")
             return True
         if kind == "inbound-testreq":
             ids = list(HOSTILE_IDS)
